@@ -71,6 +71,14 @@ def op_strategy(draw, style):
         ents, form = draw(raw_entries(style, is_int))
         op.update(type="interval" if is_int else "point", entries=ents, form=form, wrap=draw(st.sampled_from(["list", "tuple", "obj", "obj"])),
                   minT=draw(st.one_of(st.none(), st.just(0.0), lat)), maxT=draw(st.one_of(st.none(), lat, st.just(10.0))))
+        times = [x for e in ents for x in e[:-1]]
+        if times and draw(st.integers(0, 5)) == 0:
+            # a requested span that misses the outermost entry by one unit in the last place: the entry still has to fit
+            import math
+            if draw(st.booleans()):
+                op["maxT"] = math.nextafter(max(times), -math.inf)
+            elif min(times) > 0:
+                op["minT"] = math.nextafter(min(times), math.inf)
     elif kind in ("crop", "erase"):
         a, b = draw(lat), draw(lat)
         if a > b and draw(st.integers(0, 7)) != 3:  # mostly proper windows; a>=b (rejected) now and then
@@ -92,7 +100,7 @@ def op_strategy(draw, style):
         op.update(near=draw(st.one_of(st.none(), st.none(), st.none(), st.integers(0, 7))), near_k=draw(st.integers(0, 5)))
     elif kind == "new":
         op.update(minT=draw(st.one_of(st.none(), st.none(), lat)), maxT=draw(st.one_of(st.none(), lat, lat)),
-                  name=draw(st.sampled_from([None, "renamed"])))
+                  name=draw(st.sampled_from([None, "renamed"])), ulp_inside=draw(st.integers(0, 4)) == 0)
     elif kind == "delete_entry":
         op.update(sel=draw(st.integers(0, 7)), absent=draw(st.integers(0, 5)) == 0)
     elif kind == "dejitter":
@@ -175,6 +183,13 @@ def apply_op(tiers: list, op: dict) -> StepResult:
         r.mutator = True
         if is_int:
             a, b = op["a"], op["b"]
+            ents0 = list(T.entries)
+            if op.get("near") is not None and len(ents0) >= 2:
+                # starts one unit in the last place inside an existing interval's end and reaches into the next interval
+                import math
+                i0 = op["near"] % (len(ents0) - 1)
+                a = math.nextafter(ents0[i0].end, -math.inf)
+                b = (ents0[i0 + 1].start + ents0[i0 + 1].end) / 2
             if a >= b:
                 r.in_domain = False
             ent = (a, b, op["label"])
@@ -234,6 +249,9 @@ def apply_op(tiers: list, op: dict) -> StepResult:
             kw["maxTimestamp"] = op["maxT"]
         if op.get("name") is not None:
             kw["name"] = op["name"]
+        if op.get("ulp_inside") and len(T.entries) > 0:
+            import math
+            kw["maxTimestamp"] = math.nextafter(T.entries[-1][-2], -math.inf)  # one unit in the last place inside the last entry
         r.result = call(lambda: T.new(**kw))
     else:
         raise AssertionError(kind)
